@@ -1,21 +1,538 @@
-use std::{env, fs, path::PathBuf};
+//! gk build script: builds a corpus of record definitions through the *real* builder of /repo,
+//! emits their code with the *real* generator, and writes next to each module Kani harnesses
+//! derived from the *definition* (field, type, per-variant sets, minus/plus sets) -- never from
+//! the generated text.  DESIGN.md 3.4.
+use std::{collections::BTreeMap, env, fmt::Write as _, fs, path::PathBuf};
+
 use truc::{
-    generator::{config::GeneratorConfig, generate, fragment::{clone::CloneImplGenerator, FragmentGenerator}},
-    record::{definition::builder::native::NativeRecordDefinitionBuilder, type_resolver::HostTypeResolver},
+    generator::{
+        config::GeneratorConfig,
+        fragment::{clone::CloneImplGenerator, FragmentGenerator},
+        generate,
+    },
+    record::{
+        definition::{
+            builder::native::{
+                variant::{append_data, append_data_reverse, basic, simple},
+                DatumDefinitionOverride, NativeRecordDefinitionBuilder,
+            },
+            DatumId, NativeDatumDetails, RecordDefinition,
+        },
+        type_resolver::HostTypeResolver,
+    },
 };
+
+#[derive(Clone, Copy, PartialEq, Eq, Debug)]
+enum K {
+    U8,
+    U16,
+    U32,
+    U64,
+    U128,
+    A3,
+    S12,
+    S24,
+    Unit,
+    Zst,
+    A16,
+    BoxU32,
+    Tok,
+    Tok4,
+}
+
+impl K {
+    fn ty(self) -> &'static str {
+        match self {
+            K::U8 => "u8",
+            K::U16 => "u16",
+            K::U32 => "u32",
+            K::U64 => "u64",
+            K::U128 => "u128",
+            K::A3 => "[u8; 3]",
+            K::S12 => "[u32; 3]",
+            K::S24 => "[u64; 3]",
+            K::Unit => "()",
+            K::Zst => "crate::support::Zst",
+            K::A16 => "crate::support::A16",
+            K::BoxU32 => "Box<u32>",
+            K::Tok => "crate::support::Tok",
+            K::Tok4 => "crate::support::Tok4",
+        }
+    }
+    fn size_align(self) -> (usize, usize) {
+        match self {
+            K::U8 => (1, 1),
+            K::U16 => (2, 2),
+            K::U32 => (4, 4),
+            K::U64 => (8, 8),
+            K::U128 => (16, 16),
+            K::A3 => (3, 1),
+            K::S12 => (12, 4),
+            K::S24 => (24, 8),
+            K::Unit | K::Zst => (0, 1),
+            K::A16 => (16, 16),
+            K::BoxU32 => (8, 8),
+            K::Tok => (2, 1),
+            K::Tok4 => (8, 4),
+        }
+    }
+    fn copy(self) -> bool {
+        !matches!(self, K::BoxU32 | K::Tok | K::Tok4)
+    }
+    fn token(self) -> bool {
+        matches!(self, K::Tok | K::Tok4)
+    }
+}
+
+#[derive(Clone, Copy)]
+enum S {
+    Simple,
+    Basic,
+    Append,
+    AppendRev,
+}
+
+#[derive(Clone)]
+enum Op {
+    /// name, kind, allowed to stay uninitialised
+    Add(&'static str, K, bool),
+    Remove(&'static str),
+    Close(S),
+}
+
+struct ModuleDef {
+    name: &'static str,
+    ops: Vec<Op>,
+    clone: bool,
+    tier: &'static str,
+}
+
+#[derive(Clone)]
+struct Field {
+    name: String,
+    k: K,
+    uninit: bool,
+    offset: usize,
+}
+
+fn corpus() -> Vec<ModuleDef> {
+    use Op::*;
+    use K::*;
+    vec![
+        // two variants, Box fields, removed and added fields reusing the same bytes, clone
+        ModuleDef {
+            name: "m_box_reuse",
+            clone: true,
+            tier: "quick",
+            ops: vec![
+                Add("a", U32, true), Add("b", BoxU32, false), Add("c", U8, true), Close(S::Simple),
+                Remove("a"), Remove("b"), Add("e", BoxU32, false), Add("f", U16, true), Close(S::Simple),
+            ],
+        },
+        // drop-counted tokens, three variants, variant made only of removals
+        ModuleDef {
+            name: "m_tokens",
+            clone: true,
+            tier: "quick",
+            ops: vec![
+                Add("t", Tok, false), Add("x", U32, false), Add("u", Tok4, false), Close(S::Simple),
+                Remove("t"), Add("v", Tok, false), Add("y", U16, true), Close(S::Basic),
+                Remove("x"), Remove("u"), Close(S::Simple),
+            ],
+        },
+        // odd sizes, zero-size fields, over-aligned type
+        ModuleDef {
+            name: "m_shapes",
+            clone: false,
+            tier: "quick",
+            ops: vec![
+                Add("a3", A3, true), Add("z", Unit, true), Add("s12", S12, true), Add("w", A16, true), Close(S::Simple),
+                Remove("a3"), Add("s24", S24, true), Add("zz", Zst, true), Add("q", U8, false), Close(S::Simple),
+            ],
+        },
+        // empty first variant, then only may-be-uninitialised fields
+        ModuleDef {
+            name: "m_empty_then_uninit",
+            clone: false,
+            tier: "quick",
+            ops: vec![
+                Close(S::Simple),
+                Add("p", U64, true), Add("q", U16, true), Close(S::Simple),
+            ],
+        },
+        // four variants, strategy mixture, u128, gaps refilled
+        ModuleDef {
+            name: "m_mixture",
+            clone: false,
+            tier: "thorough",
+            ops: vec![
+                Add("a", U8, false), Add("b", U64, false), Add("c", U16, true), Close(S::Append),
+                Remove("b"), Add("d", U32, true), Add("e", U128, false), Close(S::Simple),
+                Remove("a"), Add("f", Tok, false), Add("g", A3, true), Close(S::Basic),
+                Remove("c"), Remove("e"), Add("h", BoxU32, false), Close(S::AppendRev),
+            ],
+        },
+        // heap-owning and token fields carried across three variants, clone
+        ModuleDef {
+            name: "m_carried",
+            clone: true,
+            tier: "thorough",
+            ops: vec![
+                Add("k", BoxU32, false), Add("t", Tok4, false), Add("n", U8, true), Close(S::Basic),
+                Add("m", U32, true), Close(S::Basic),
+                Remove("n"), Add("o", Tok, false), Close(S::Simple),
+            ],
+        },
+    ]
+}
+
+fn build(def: &ModuleDef) -> (RecordDefinition<NativeDatumDetails>, BTreeMap<String, (K, bool, DatumId)>) {
+    let mut b = NativeRecordDefinitionBuilder::new(&HostTypeResolver);
+    let mut kinds: BTreeMap<String, (K, bool, DatumId)> = BTreeMap::new();
+    for op in &def.ops {
+        match op {
+            Op::Add(name, k, uninit) => {
+                assert!(!*uninit || k.copy(), "uninit only for Copy kinds");
+                let (size, align) = k.size_align();
+                let id = b
+                    .add_datum_override::<(), _>(
+                        *name,
+                        DatumDefinitionOverride {
+                            type_name: Some(k.ty().to_owned()),
+                            size: Some(size),
+                            align: Some(align),
+                            allow_uninit: Some(*uninit),
+                        },
+                    )
+                    .unwrap();
+                kinds.insert(name.to_string(), (*k, *uninit, id));
+            }
+            Op::Remove(name) => {
+                b.remove_datum(kinds[*name].2).unwrap();
+            }
+            Op::Close(s) => {
+                match s {
+                    S::Simple => b.close_record_variant_with(simple),
+                    S::Basic => b.close_record_variant_with(basic),
+                    S::Append => b.close_record_variant_with(append_data),
+                    S::AppendRev => b.close_record_variant_with(append_data_reverse),
+                };
+            }
+        }
+    }
+    (b.build(), kinds)
+}
+
+fn variant_fields(def: &RecordDefinition<NativeDatumDetails>, kinds: &BTreeMap<String, (K, bool, DatumId)>) -> Vec<Vec<Field>> {
+    def.variants()
+        .map(|v| {
+            v.data_sorted()
+                .map(|d| {
+                    let dd = &def[d];
+                    let (k, uninit, _) = kinds[dd.name()];
+                    Field { name: dd.name().to_owned(), k, uninit, offset: dd.details().offset() }
+                })
+                .collect()
+        })
+        .collect()
+}
+
+// ---------------------------------------------------------------------------------------------
+// harness text
+
+fn seeds(out: &mut String, fields: &[Field], p: &str) {
+    for f in fields {
+        writeln!(out, "        let {p}_{n} = <{t} as Val>::seed();", n = f.name, t = f.k.ty()).unwrap();
+    }
+}
+
+fn literal(name: &str, fields: &[Field], p: &dyn Fn(&Field) -> String) -> String {
+    let mut s = format!("{} {{ ", name);
+    for f in fields {
+        write!(s, "{n}: <{t} as Val>::make({seed}), ", n = f.name, t = f.k.ty(), seed = p(f)).unwrap();
+    }
+    s.push('}');
+    s
+}
+
+fn check_acc(out: &mut String, recv: &str, fields: &[Field], seed: &dyn Fn(&Field) -> String, tag: &str) {
+    for f in fields {
+        writeln!(out, "        assert!({recv}.{n}().is({s}), \"{tag}: field {n}\");", n = f.name, s = seed(f)).unwrap();
+    }
+}
+
+fn has(fields: &[Field], name: &str) -> bool {
+    fields.iter().any(|f| f.name == name)
+}
+
+fn harnesses(def: &ModuleDef, vars: &[Vec<Field>], max_size: usize, max_align: usize) -> String {
+    let mut o = String::new();
+    let unwind = 64;
+    let hdr = |o: &mut String, name: &str| {
+        writeln!(o, "    #[kani::proof]\n    #[kani::unwind({unwind})]\n    pub fn {name}() {{").unwrap();
+    };
+    for (k, fields) in vars.iter().enumerate() {
+        let cap = if k % 2 == 0 { "{ MAX_SIZE }".to_string() } else { "{ MAX_SIZE + 8 }".to_string() };
+        // ---- C04: new / accessors / mutable accessors / unpack ------------------------------
+        hdr(&mut o, &format!("c04_v{k}_new_read_write_unpack"));
+        seeds(&mut o, fields, "s");
+        writeln!(o, "        let mut r: CappedRecord{k}<{cap}> = CappedRecord{k}::new({});",
+            literal(&format!("UnpackedRecord{k}"), fields, &|f| format!("s_{}", f.name))).unwrap();
+        check_acc(&mut o, "r", fields, &|f| format!("s_{}", f.name), "C04 read after new");
+        let mut cur: BTreeMap<String, String> = fields.iter().map(|f| (f.name.clone(), format!("s_{}", f.name))).collect();
+        for f in fields {
+            writeln!(o, "        let n_{n} = <{t} as Val>::seed();", n = f.name, t = f.k.ty()).unwrap();
+            writeln!(o, "        *r.{n}_mut() = <{t} as Val>::make(n_{n});", n = f.name, t = f.k.ty()).unwrap();
+            if f.k.token() {
+                writeln!(o, "        assert!(drops(s_{n}.id) == 1, \"C06: value overwritten through {n}_mut destroyed exactly once\");", n = f.name).unwrap();
+            }
+            cur.insert(f.name.clone(), format!("n_{}", f.name));
+            let c2 = cur.clone();
+            check_acc(&mut o, "r", fields, &move |g| c2[&g.name].clone(), &format!("C04 write through {}_mut changes that field only", f.name));
+        }
+        writeln!(o, "        let u = r.unpack();").unwrap();
+        for f in fields {
+            writeln!(o, "        assert!(u.{n}.is(n_{n}), \"C04 unpack: field {n}\");", n = f.name).unwrap();
+            if f.k.token() {
+                writeln!(o, "        assert!(drops(n_{n}.id) == 0, \"C06: value handed back by unpack was destroyed\");", n = f.name).unwrap();
+            }
+        }
+        writeln!(o, "        drop(u);").unwrap();
+        writeln!(o, "        assert!(all_tokens_dropped_exactly_once(), \"C06: every value moved into the record destroyed exactly once\");").unwrap();
+        writeln!(o, "    }}\n").unwrap();
+
+        // ---- C04: placements (Box, Vec element), drop without unpack -------------------------
+        hdr(&mut o, &format!("c04_v{k}_heap_placements_and_drop"));
+        seeds(&mut o, fields, "s");
+        seeds(&mut o, fields, "t");
+        writeln!(o, "        let b = Box::new(Record{k}::new({}));", literal(&format!("UnpackedRecord{k}"), fields, &|f| format!("s_{}", f.name))).unwrap();
+        check_acc(&mut o, "b", fields, &|f| format!("s_{}", f.name), "C04 boxed record");
+        writeln!(o, "        let mut v: Vec<Record{k}> = Vec::with_capacity(2);").unwrap();
+        writeln!(o, "        v.push(*b);").unwrap();
+        writeln!(o, "        v.push(Record{k}::new({}));", literal(&format!("UnpackedRecord{k}"), fields, &|f| format!("t_{}", f.name))).unwrap();
+        check_acc(&mut o, "v[0]", fields, &|f| format!("s_{}", f.name), "C04 vector element 0");
+        check_acc(&mut o, "v[1]", fields, &|f| format!("t_{}", f.name), "C04 vector element 1");
+        writeln!(o, "        assert!(no_token_dropped_twice(), \"C06: moving a record must not destroy its fields\");").unwrap();
+        writeln!(o, "        drop(v);").unwrap();
+        writeln!(o, "        assert!(all_tokens_dropped_exactly_once(), \"C06: dropping a record destroys every field exactly once\");").unwrap();
+        writeln!(o, "    }}\n").unwrap();
+
+        // ---- C04: new_uninit ---------------------------------------------------------------
+        let mandatory: Vec<Field> = fields.iter().filter(|f| !f.uninit).cloned().collect();
+        let optional: Vec<Field> = fields.iter().filter(|f| f.uninit).cloned().collect();
+        if !optional.is_empty() {
+            hdr(&mut o, &format!("c04_v{k}_new_uninit_then_write"));
+            seeds(&mut o, &mandatory, "s");
+            writeln!(o, "        let mut r: CappedRecord{k}<{cap}> = CappedRecord{k}::new_uninit({});",
+                literal(&format!("UnpackedUninitRecord{k}"), &mandatory, &|f| format!("s_{}", f.name))).unwrap();
+            check_acc(&mut o, "r", &mandatory, &|f| format!("s_{}", f.name), "C04 mandatory field after new_uninit");
+            for f in &optional {
+                writeln!(o, "        let s_{n} = <{t} as Val>::seed();", n = f.name, t = f.k.ty()).unwrap();
+                writeln!(o, "        *r.{n}_mut() = <{t} as Val>::make(s_{n});", n = f.name, t = f.k.ty()).unwrap();
+            }
+            check_acc(&mut o, "r", fields, &|f| format!("s_{}", f.name), "C04 after writing the fields left uninitialised");
+            writeln!(o, "        let u = r.unpack();").unwrap();
+            for f in fields {
+                writeln!(o, "        assert!(u.{n}.is(s_{n}), \"C04 unpack after new_uninit: field {n}\");", n = f.name).unwrap();
+            }
+            writeln!(o, "        drop(u);").unwrap();
+            writeln!(o, "        assert!(all_tokens_dropped_exactly_once(), \"C06: exactly once after new_uninit\");").unwrap();
+            writeln!(o, "    }}\n").unwrap();
+        }
+
+        // ---- C16: clone / clone_from -----------------------------------------------------------
+        if def.clone {
+            hdr(&mut o, &format!("c16_v{k}_clone_is_equal_and_independent"));
+            seeds(&mut o, fields, "s");
+            writeln!(o, "        let mut r = Record{k}::new({});", literal(&format!("UnpackedRecord{k}"), fields, &|f| format!("s_{}", f.name))).unwrap();
+            writeln!(o, "        let mut c = r.clone();").unwrap();
+            for f in fields {
+                writeln!(o, "        assert!(c.{n}().same_value(s_{n}), \"C16 clone equal: field {n}\");", n = f.name).unwrap();
+            }
+            check_acc(&mut o, "r", fields, &|f| format!("s_{}", f.name), "C16 source unchanged by clone");
+            for f in fields {
+                writeln!(o, "        let n_{n} = <{t} as Val>::seed();", n = f.name, t = f.k.ty()).unwrap();
+                writeln!(o, "        *c.{n}_mut() = <{t} as Val>::make(n_{n});", n = f.name, t = f.k.ty()).unwrap();
+            }
+            check_acc(&mut o, "r", fields, &|f| format!("s_{}", f.name), "C16 mutating the clone leaves the source intact");
+            for f in fields {
+                writeln!(o, "        let m_{n} = <{t} as Val>::seed();", n = f.name, t = f.k.ty()).unwrap();
+                writeln!(o, "        *r.{n}_mut() = <{t} as Val>::make(m_{n});", n = f.name, t = f.k.ty()).unwrap();
+            }
+            check_acc(&mut o, "c", fields, &|f| format!("n_{}", f.name), "C16 mutating the source leaves the clone intact");
+            writeln!(o, "        drop(r);").unwrap();
+            check_acc(&mut o, "c", fields, &|f| format!("n_{}", f.name), "C16 clone readable after the source is dropped");
+            writeln!(o, "        drop(c);").unwrap();
+            writeln!(o, "        assert!(all_tokens_dropped_exactly_once(), \"C06: clone and source destroyed exactly once each\");").unwrap();
+            writeln!(o, "    }}\n").unwrap();
+
+            hdr(&mut o, &format!("c16_v{k}_clone_from"));
+            seeds(&mut o, fields, "s");
+            seeds(&mut o, fields, "t");
+            writeln!(o, "        let src = Record{k}::new({});", literal(&format!("UnpackedRecord{k}"), fields, &|f| format!("s_{}", f.name))).unwrap();
+            writeln!(o, "        let mut tgt = Record{k}::new({});", literal(&format!("UnpackedRecord{k}"), fields, &|f| format!("t_{}", f.name))).unwrap();
+            writeln!(o, "        tgt.clone_from(&src);").unwrap();
+            for f in fields {
+                writeln!(o, "        assert!(tgt.{n}().same_value(s_{n}), \"C16 clone_from makes the target equal: field {n}\");", n = f.name).unwrap();
+                if f.k.token() {
+                    writeln!(o, "        assert!(drops(t_{n}.id) == 1, \"C16 previous contents of the target destroyed exactly once: field {n}\");", n = f.name).unwrap();
+                }
+            }
+            check_acc(&mut o, "src", fields, &|f| format!("s_{}", f.name), "C16 source unchanged by clone_from");
+            writeln!(o, "        drop(src);\n        drop(tgt);").unwrap();
+            writeln!(o, "        assert!(all_tokens_dropped_exactly_once(), \"C06: exactly once after clone_from\");").unwrap();
+            writeln!(o, "    }}\n").unwrap();
+        }
+
+        // ---- C05: conversions from the previous variant -----------------------------------------
+        if k > 0 {
+            let prev = &vars[k - 1];
+            let carried: Vec<Field> = fields.iter().filter(|f| has(prev, &f.name)).cloned().collect();
+            let plus: Vec<Field> = fields.iter().filter(|f| !has(prev, &f.name)).cloned().collect();
+            let minus: Vec<Field> = prev.iter().filter(|f| !has(fields, &f.name)).cloned().collect();
+            let plus_mand: Vec<Field> = plus.iter().filter(|f| !f.uninit).cloned().collect();
+            let plus_opt: Vec<Field> = plus.iter().filter(|f| f.uninit).cloned().collect();
+            for (form, with_out, uninit) in [("all", false, false), ("uninit", false, true), ("out_all", true, false), ("out_uninit", true, true)] {
+                hdr(&mut o, &format!("c05_v{k}_from_previous_{form}"));
+                seeds(&mut o, prev, "p");
+                let pk = k - 1;
+                writeln!(o, "        let prev = Record{pk}::new({});", literal(&format!("UnpackedRecord{pk}"), prev, &|f| format!("p_{}", f.name))).unwrap();
+                let given: &Vec<Field> = if uninit { &plus_mand } else { &plus };
+                seeds(&mut o, given, "a");
+                let in_name = if uninit { format!("UnpackedUninitRecordIn{k}") } else { format!("UnpackedRecordIn{k}") };
+                let lit = literal(&in_name, given, &|f| format!("a_{}", f.name));
+                let recv;
+                if with_out {
+                    writeln!(o, "        let mut o = Record{k}AndUnpackedOut::<{{ MAX_SIZE }}>::from((prev, {lit}));").unwrap();
+                    recv = "o.record";
+                    for f in &minus {
+                        writeln!(o, "        assert!(o.{n}.is(p_{n}), \"C05 removed field handed back with its value: {n}\");", n = f.name).unwrap();
+                        if f.k.token() {
+                            writeln!(o, "        assert!(drops(p_{n}.id) == 0, \"C06: field handed back by the conversion must not have been destroyed: {n}\");", n = f.name).unwrap();
+                        }
+                    }
+                } else {
+                    writeln!(o, "        let mut r = Record{k}::from((prev, {lit}));").unwrap();
+                    recv = "r";
+                    for f in &minus {
+                        if f.k.token() {
+                            writeln!(o, "        assert!(drops(p_{n}.id) == 1, \"C06: field removed by a conversion that does not return it is destroyed by it: {n}\");", n = f.name).unwrap();
+                        }
+                    }
+                }
+                check_acc(&mut o, recv, &carried, &|f| format!("p_{}", f.name), "C05 carried-over field keeps its value");
+                for f in &carried {
+                    if f.k.token() {
+                        writeln!(o, "        assert!(drops(p_{n}.id) == 0, \"C06: carried-over field must not be destroyed by the conversion: {n}\");", n = f.name).unwrap();
+                    }
+                }
+                check_acc(&mut o, recv, given, &|f| format!("a_{}", f.name), "C05 added field has the supplied value");
+                if uninit {
+                    for f in &plus_opt {
+                        writeln!(o, "        let a_{n} = <{t} as Val>::seed();", n = f.name, t = f.k.ty()).unwrap();
+                        writeln!(o, "        *{recv}.{n}_mut() = <{t} as Val>::make(a_{n});", n = f.name, t = f.k.ty()).unwrap();
+                    }
+                    check_acc(&mut o, recv, &plus, &|f| format!("a_{}", f.name), "C05 added field written after an uninit conversion");
+                    check_acc(&mut o, recv, &carried, &|f| format!("p_{}", f.name), "C05 carried-over field after those writes");
+                }
+                if with_out {
+                    writeln!(o, "        drop(o);").unwrap();
+                } else {
+                    writeln!(o, "        drop(r);").unwrap();
+                }
+                writeln!(o, "        assert!(all_tokens_dropped_exactly_once(), \"C06: exactly once across the conversion\");").unwrap();
+                writeln!(o, "    }}\n").unwrap();
+            }
+        }
+    }
+
+    // ---- C05: chain through all variants, alternating forms ------------------------------------
+    if vars.len() > 1 {
+        hdr(&mut o, "c05_chain_first_to_last");
+        seeds(&mut o, &vars[0], "s");
+        writeln!(o, "        let r0 = Record0::new({});", literal("UnpackedRecord0", &vars[0], &|f| format!("s_{}", f.name))).unwrap();
+        for k in 1..vars.len() {
+            let prev = &vars[k - 1];
+            let fields = &vars[k];
+            let plus: Vec<Field> = fields.iter().filter(|f| !has(prev, &f.name)).cloned().collect();
+            seeds(&mut o, &plus, "s");
+            let lit = literal(&format!("UnpackedRecordIn{k}"), &plus, &|f| format!("s_{}", f.name));
+            if k % 2 == 1 {
+                writeln!(o, "        let r{k} = Record{k}::from((r{pk}, {lit}));", pk = k - 1).unwrap();
+            } else {
+                writeln!(o, "        let o{k} = Record{k}AndUnpackedOut::<{{ MAX_SIZE }}>::from((r{pk}, {lit}));", pk = k - 1).unwrap();
+                let minus: Vec<Field> = prev.iter().filter(|f| !has(fields, &f.name)).cloned().collect();
+                for f in &minus {
+                    writeln!(o, "        assert!(o{k}.{n}.is(s_{n}), \"C05 chain: removed field handed back: {n}\");", n = f.name).unwrap();
+                }
+                // destructure: keep the record, drop the returned fields
+                let mut pat = format!("Record{k}AndUnpackedOut {{ record: r{k}, ");
+                for f in &minus {
+                    write!(pat, "{n}: _ret_{n}, ", n = f.name).unwrap();
+                }
+                pat.push('}');
+                writeln!(o, "        let {pat} = o{k};").unwrap();
+            }
+            check_acc(&mut o, &format!("r{k}"), fields, &|f| format!("s_{}", f.name), &format!("C05 chain at variant {k}")) ;
+        }
+        let last = vars.len() - 1;
+        writeln!(o, "        let u = r{last}.unpack();").unwrap();
+        for f in &vars[last] {
+            writeln!(o, "        assert!(u.{n}.is(s_{n}), \"C05 chain: last variant unpacked: {n}\");", n = f.name).unwrap();
+        }
+        writeln!(o, "        drop(u);").unwrap();
+        writeln!(o, "    }}\n").unwrap();
+    }
+
+    // ---- C03 / C02: one size and alignment; published constants -----------------------------------
+    hdr(&mut o, "c03_one_size_one_alignment_c02_published_constants");
+    writeln!(o, "        use std::mem::{{align_of, size_of}};").unwrap();
+    writeln!(o, "        assert!(MAX_SIZE == {max_size}, \"C02: published capacity equals the capacity of the definition\");").unwrap();
+    for (k, fields) in vars.iter().enumerate() {
+        writeln!(o, "        assert!(align_of::<Record{k}>() == {max_align}, \"C02/C03: record alignment is the definition's\");").unwrap();
+        writeln!(o, "        assert!(size_of::<Record{k}>() == size_of::<Record0>() && align_of::<Record{k}>() == align_of::<Record0>(), \"C03: variant {k} vs variant 0 at the published capacity\");").unwrap();
+        writeln!(o, "        assert!(size_of::<CappedRecord{k}<{{ MAX_SIZE + 1 }}>>() == size_of::<CappedRecord0<{{ MAX_SIZE + 1 }}>>() && align_of::<CappedRecord{k}<{{ MAX_SIZE + 1 }}>>() == align_of::<CappedRecord0<{{ MAX_SIZE + 1 }}>>(), \"C03: larger capacity\");").unwrap();
+        writeln!(o, "        assert!(size_of::<CappedRecord{k}<{{ 2 * MAX_SIZE + 3 }}>>() == size_of::<CappedRecord0<{{ 2 * MAX_SIZE + 3 }}>>(), \"C03: much larger capacity\");").unwrap();
+        writeln!(o, "        assert!(size_of::<Record{k}>() >= MAX_SIZE, \"C02: storage at least the capacity\");").unwrap();
+        for f in fields {
+            let (sz, al) = f.k.size_align();
+            writeln!(o, "        assert!({off} + {sz} <= MAX_SIZE && {off} % {al} == 0 && align_of::<Record{k}>() % {al} == 0 && size_of::<{t}>() == {sz} && align_of::<{t}>() == {al}, \"C02: field {n} of variant {k}\");",
+                off = f.offset, t = f.k.ty(), n = f.name).unwrap();
+        }
+    }
+    writeln!(o, "    }}\n").unwrap();
+    o
+}
+
 fn main() {
-    let mut d = NativeRecordDefinitionBuilder::new(&HostTypeResolver);
-    let a = d.add_datum_allow_uninit::<u32, _>("a").unwrap();
-    let b = d.add_datum::<Box<u16>, _>("b").unwrap();
-    let _c = d.add_datum_allow_uninit::<u8, _>("c").unwrap();
-    d.close_record_variant();
-    d.remove_datum(a).unwrap();
-    d.remove_datum(b).unwrap();
-    d.add_datum::<Box<u32>, _>("e").unwrap();
-    d.add_datum_allow_uninit::<u16, _>("f").unwrap();
-    d.close_record_variant();
-    let def = d.build();
+    println!("cargo:rerun-if-changed=build.rs");
+    println!("cargo:rerun-if-changed=/repo/truc/src");
+    println!("cargo:rerun-if-env-changed=GK_TIER");
+    let tier = env::var("GK_TIER").unwrap_or_else(|_| "quick".into());
     let out = PathBuf::from(env::var("OUT_DIR").unwrap());
-    fs::write(out.join("gen.rs"), generate(&def, &GeneratorConfig::default_with_custom_generators([Box::new(CloneImplGenerator) as Box<dyn FragmentGenerator>]))).unwrap();
-    fs::write("/tmp/gen_sample.rs", generate(&def, &GeneratorConfig::default_with_custom_generators([Box::new(CloneImplGenerator) as Box<dyn FragmentGenerator>]))).unwrap();
+    let dump = env::var("GK_DUMP_DIR").ok().map(PathBuf::from);
+    let mut lib = String::new();
+    let mut table = Vec::new();
+    for m in corpus() {
+        if m.tier == "thorough" && tier != "thorough" {
+            continue;
+        }
+        let (def, kinds) = build(&m);
+        let gens: Vec<Box<dyn FragmentGenerator>> = if m.clone { vec![Box::new(CloneImplGenerator)] } else { vec![] };
+        let code = generate(&def, &GeneratorConfig::default_with_custom_generators(gens));
+        fs::write(out.join(format!("{}.rs", m.name)), &code).unwrap();
+        if let Some(d) = &dump {
+            fs::create_dir_all(d).unwrap();
+            fs::write(d.join(format!("{}.rs", m.name)), &code).unwrap();
+        }
+        let vars = variant_fields(&def, &kinds);
+        let h = harnesses(&m, &vars, def.max_size(), def.max_type_align());
+        writeln!(lib, "#[allow(dead_code, unused_variables, unused_mut, unused_imports, clippy::all)]\npub mod {name} {{\n    use crate::support::*;\n    include!(concat!(env!(\"OUT_DIR\"), \"/{name}.rs\"));\n    #[cfg(kani)]\n    pub mod h {{\n    use super::*;\n    use crate::support::*;\n{h}    }}\n}}\n", name = m.name).unwrap();
+        table.push(format!("{}: variants={} {}", m.name, vars.len(), def.to_string().replace('\n', " | ")));
+    }
+    fs::write(out.join("corpus.rs"), lib).unwrap();
+    if let Some(d) = &dump {
+        fs::write(d.join("corpus_table.txt"), table.join("\n")).unwrap();
+        fs::copy(out.join("corpus.rs"), d.join("corpus_harnesses.rs")).unwrap();
+    }
 }
